@@ -14,7 +14,9 @@ LEAN = os.path.join(VERIF, 'lean')
 HARNESS = os.path.join(VERIF, 'harness')
 WORK = os.path.join(VERIF, 'work')
 DRIVER = os.path.join(LEAN, '.lake', 'build', 'bin', 'driver')
-HBIN_DIR = os.path.join(HARNESS, 'target', 'debug')
+# bin/implcov overrides these three to build and run an instrumented copy of the harness (never used by the registered checks)
+HTARGET = os.environ.get('VERIF_HARNESS_TARGET') or os.path.join(HARNESS, 'target')
+HBIN_DIR = os.path.join(HTARGET, 'debug')
 
 
 def hbin(kind, ek):
@@ -137,8 +139,10 @@ def build_harness(bins=None):
     if not os.path.exists(lock_dst):
         import shutil
         shutil.copy(lock_src, lock_dst)
-    env = dict(ENV, RUSTFLAGS='--cfg chumsky_verif')
-    cmd = ['cargo', 'build', '--offline', '--quiet']
+    env = dict(ENV, RUSTFLAGS='--cfg chumsky_verif ' + os.environ.get('VERIF_HARNESS_RUSTFLAGS_EXTRA', ''))
+    if os.environ.get('VERIF_HARNESS_TARGET'):
+        env['CARGO_TARGET_DIR'] = HTARGET
+    cmd = ['cargo'] + ([os.environ['VERIF_CARGO_TOOLCHAIN']] if os.environ.get('VERIF_CARGO_TOOLCHAIN') else []) + ['build', '--offline', '--quiet']
     for b in (bins or []):
         cmd += ['--bin', b]
     rc, out = sh(cmd, cwd=HARNESS, timeout=6000, env=env)
